@@ -676,10 +676,10 @@ fn gen_pat(g: &TermGen, r: &mut Rng, graph: bool, stats: &mut Stats, pool: &[Q])
                 1 => format!("S 1 {}", term.render()),
                 _ => format!("R 1 {}", term.render()),
             });
-        } else if let (Some(q), true) = (&q, roll < 6) {
+        } else if let (Some(q), true) = (&q, roll < 7) {
             shape.push('0');
             parts.push(selective_tm(g, r, [&q.s, &q.p, &q.o][i], stats));
-        } else if roll < 8 {
+        } else if roll < 9 {
             shape.push('0');
             stats.bump("matcher.any");
             parts.push("A".to_string());
@@ -706,10 +706,10 @@ fn gen_pat(g: &TermGen, r: &mut Rng, graph: bool, stats: &mut Stats, pool: &[Q])
                     None => "GO -".into(),
                 },
             });
-        } else if let (Some(q), true) = (&q, roll < 6) {
+        } else if let (Some(q), true) = (&q, roll < 7) {
             shape.push('0');
             parts.push(selective_gm(g, r, &q.g, stats));
-        } else if roll < 8 {
+        } else if roll < 9 {
             shape.push('0');
             stats.bump("matcher.gany");
             parts.push("GA".to_string());
